@@ -38,6 +38,8 @@ var c14P1, c14P2 = func() (a, b [64]color.RGBA) {
 	return
 }()
 
+var c14Black = ivg.DefaultPalette
+
 var c14Cols = []struct {
 	name string
 	c    color.Color
@@ -52,7 +54,7 @@ var c14Cols = []struct {
 }
 
 var c14Opts = func() []c14Opt {
-	os := []c14Opt{{name: "WithPalette(P1)", full: &c14P1}, {name: "WithPalette(P2)", full: &c14P2}}
+	os := []c14Opt{{name: "WithPalette(P1)", full: &c14P1}, {name: "WithPalette(P2)", full: &c14P2}, {name: "WithPalette(default: all opaque black)", full: &c14Black}}
 	for _, i := range []int{0, 1, 63} {
 		for _, c := range c14Cols {
 			os = append(os, c14Opt{name: fmt.Sprintf("WithColorAt(%d,%s)", i, c.name), index: i, col: c.c})
